@@ -10,9 +10,9 @@ S="$(mktemp -d /tmp/confirm.XXXXXX)"; trap 'rm -rf "$S"' EXIT
 rsync -a --exclude .git /repo/ "$S/repo/"; cd "$S/repo"
 rundemo() {
   if [ "$PKG" = "prog" ]; then
-    mkdir -p "$S/repo/zz_demo" && cp "$M"/demo/main.go "$S/repo/zz_demo/main.go" && timeout 900 go run ./zz_demo
+    mkdir -p "$S/repo/zz_demo" && cp "$M"/demo/main.go "$S/repo/zz_demo/main.go" && timeout 900 env ${DEMO_ENV:-} go run ./zz_demo
   else
-    for f in "$M"/demo*_test.go; do cp "$f" "$S/repo/$PKG/zz_$(basename "$f")"; done; timeout 900 go test -vet=off -count=1 -run "${DEMO_RUN:-Demo}" ${DEMO_FLAGS:-} "./$PKG"
+    for f in "$M"/demo*_test.go; do cp "$f" "$S/repo/$PKG/zz_$(basename "$f")"; done; timeout 900 env ${DEMO_ENV:-} go test -vet=off -count=1 -run "${DEMO_RUN:-Demo}" ${DEMO_FLAGS:-} "./$PKG"
   fi
 }
 rundemo > "$S/demo_before.txt" 2>&1; b=$?
